@@ -179,10 +179,18 @@ Definition is_ns_ident (n : node) : bool :=
 
 (** The measure is defined once, generically: [kappa] is the weight of one reference, and a block
     statement or an arrow function may be given a weight of its own by [stop] (instead of the sum over
-    its children); the
+    its children), and so may a member expression on the hook namespace (which is how a measure can look at the
+    NAME that is dereferenced: P_Names.v); the
     count of references is the instance without stops and with weight one.  The other instance used
     (P_CountProgram.v) weighs a nested block by whether it still is a clean, well-formed input. *)
-Definition stop_kind (n : node) : bool := is_kind KBlock n || is_kind KArrow n.
+(** A member expression whose object is the hook namespace: [_ddiast.<name>] (or [_ddiast[..]]). *)
+Definition is_ns_member (n : node) : bool :=
+  match n with
+  | Node (K KMember _ _) (obj :: _) => is_ns_ident obj
+  | _ => false
+  end.
+
+Definition stop_kind (n : node) : bool := is_kind KBlock n || is_kind KArrow n || is_ns_member n.
 
 Section Meas.
   Variable stop : node -> option nat.
